@@ -21,5 +21,4 @@ CONSTANTS
 SPECIFICATION MCSpec
 VIEW View
 INVARIANT Emit
-PROPERTY IsolationMC
 CONSTRAINT Bound
